@@ -247,7 +247,9 @@ def rule_rawbytes(ctx, rep, rid="R-C14-rawbytes"):
             if rt[0] in vecs:
                 return True
             fs = [x for x in rt[1] if isinstance(x, list) and x[0] == "f"]
-            return bool(fs) and re.sub(r"\s", "", fs[-1][5] or "") in ("alloc::vec::Vec<u8>",) and fs[-1][3] == "(closure)"
+            # the place is a whole Vec<u8> wherever it lives (a captured variable, the payload of `read(path)?`)
+            tail = rt[1][rt[1].index(fs[-1]) + 1:] if fs else []
+            return bool(fs) and re.sub(r"\s", "", fs[-1][5] or "").replace("&", "") in ("alloc::vec::Vec<u8>",) and all(x == "*" for x in tail)
         k = 0
         for bb, kind, pl in b.place_uses():
             if kind == "mutref" and is_buf(pl):
